@@ -11,7 +11,7 @@ recorded cases, decide, write evidence/<id>.json.
 import fcntl, glob, hashlib, json, os, re, shutil, subprocess, sys, time
 
 ROOT = os.path.dirname(os.path.dirname(os.path.abspath(__file__)))
-REPO = os.environ.get("VERIF_REPO", "/repo")
+REPO = os.environ.get("VERIF_REPO") or "/repo"
 COQ = os.path.join(ROOT, "coq")
 WORK = os.path.join(ROOT, "work")
 BIN = os.path.join(ROOT, "bin")
